@@ -266,12 +266,12 @@ def task_sift(t):
 
 def task_big(t):
     """Large instances: functions with several hundred nodes over 14 variables (level pairs
-    holding more than a hundred nodes): every adjacent swap, sifting, and sorting to the
+    holding hundreds of nodes; also 20 variables, ~2 000 nodes): every adjacent swap, sifting,
+    and sorting to the
     interleaved order."""
-    _, which, _f = t
+    _, which, k, _f = t
     rep = run.Report()
     rec = sweep.Rec(rep)
-    k = 7
     a = ['a%d' % i for i in range(k)]
     bb = ['b%d' % i for i in range(k)]
     names = tuple(a + bb)
@@ -283,7 +283,15 @@ def task_big(t):
         g ^= U.var(a[i]) & U.var(bb[(i + 1) % k])
     order = {v: i for i, v in enumerate(names)}     # all a's above all b's: exponential size
 
+    base = []
+
     def setup():
+        if base:
+            return S.clone(base[0]), list(base[1]), dict(base[2])
+        base.extend(setup0())
+        return setup()
+
+    def setup0():
         m = S.new_bdd(order)
         b = sweep.Builder(m, U)
         held, ext = [], {}
@@ -385,7 +393,10 @@ def dispatch(t):
 
 
 def plan(tier):
-    ts = [('empty', None), ('big', 'swaps', None), ('big', 'sift', None), ('big', 'sort', None)]
+    ts = [('empty', None)]
+    for k in (7, 10):
+        # k pairs a_i, b_i in the order a* b*: level pairs holding 2**(k-1) nodes
+        ts += [('big', 'swaps', k, None), ('big', 'sift', k, None), ('big', 'sort', k, None)]
     if tier == 'quick':
         for oi in range(6):
             for si in range(2):
